@@ -620,8 +620,8 @@ def run(tier):
 
 def json_leg(ck, tier, scs, meta):
     """The same faults with -j: what the peer sends decides how the audit ends, not the output format.  Every fault of the first connection
-    (identification string, KEXINIT - where the error path of the JSON builder is) and a sample of the later ones (quick; all of them in the
-    thorough tier) are run again with -j in place of -n; the directly observable clauses are judged: the run ends, with a status in 0..3,
+    (identification string, KEXINIT - where the error path of the JSON builder is) and a sample of the later ones (every 7th; every 2nd in
+    the thorough tier) are run again with -j in place of -n; the directly observable clauses are judged: the run ends, with a status in 0..3,
     within its time bound, and a run that ends with a report's status prints one JSON document."""
     pick = []
     for j, (sc, m) in enumerate(zip(scs, meta)):
@@ -629,7 +629,7 @@ def json_leg(ck, tier, scs, meta):
         if '-n' not in sc['argv'] or '-M' in sc['argv']:
             continue
         first = point is not None and point[0] == 1
-        if first and 'randmut' not in what or tier == 'thorough' or j % 7 == 0:
+        if first and 'randmut' not in what or j % (2 if tier == 'thorough' else 7) == 0:
             pick.append(j)
     jscs = [dict(scs[j], argv=['-j' if a == '-n' else a for a in scs[j]['argv']]) for j in pick]
     n_ok = 0
